@@ -19,6 +19,11 @@ use crate::leaf::{Leaf, LeafId};
 mod dfa_util;
 mod export;
 
+// Proof harnesses for the Kani model checker; compiled only under `cargo kani` (cfg(kani)).
+#[cfg(kani)]
+#[path = "/verif/kani/cg_proofs.rs"]
+mod verif_proofs;
+
 /// A configuration used to construct a graph
 #[derive(Debug)]
 pub struct Config {
